@@ -109,6 +109,7 @@ func runC03(r *Run, verifDir string) {
 	r.NotCov = append(r.NotCov, "the arithmetic inside padForLen and bigIntToBytes", "equality of scalar values read by an independent parser (needs an executable oracle)", "that an independent generator's encodings decode to the same tree")
 
 	valueStorageFresh(r, "C03.T10")
+	c03T11(r)
 	ref, err := readTypeRef(filepath.Join(verifDir, "ref", "ttlv_types.tsv"))
 	r.Rule("C03.T1", "ttlv.Type codes and names equal the specification table; the reader accepts exactly codes 1..10", 11)
 	if err != nil {
@@ -1406,4 +1407,66 @@ func int64FastPath(fn *ssa.Function) bool {
 		}
 	})
 	return ok
+}
+
+// c03T11: a value the binary writer rejects leaves no trace. Every panic of a ttlvWriter method happens before the
+// method has emitted anything: not inside a value callback (the item header is already in the buffer when it runs)
+// and not after an emission call. A caller that recovers and goes on writing would otherwise leave an orphan header,
+// which an independent parser reads as the start of an item whose value is the next item's header.
+func c03T11(r *Run) {
+	r.Rule("C03.T11", "a ttlvWriter method panics only before it has emitted anything (no panic in a value callback or after an emission)", 1)
+	n := 0
+	emits := func(c *ssa.CallCommon) bool {
+		id := callID(c)
+		if id.pkg == ttlvPath && id.recv == "ttlvWriter" && strings.HasPrefix(id.name, "encodeAppend") {
+			return true
+		}
+		return false
+	}
+	for _, fn := range pkgFuncs(r.P, "ttlv") {
+		top := fn
+		for top.Parent() != nil {
+			top = top.Parent()
+		}
+		if id := idOf(top); id.recv != "ttlvWriter" {
+			continue
+		}
+		allInstrs(fn, func(in ssa.Instruction) {
+			pn, ok := in.(*ssa.Panic)
+			if !ok {
+				return
+			}
+			n++
+			key := fmt.Sprintf("%s/panic#%d", fnKey(top), n)
+			if fn != top {
+				r.Bad("C03.T11", key, pn.Pos(), "%s panics inside a callback that runs after the item header was appended: the rejected item leaves its 8-byte header in the buffer, and whatever is written next is read as that item's value", fnKey(fn))
+				return
+			}
+			after := false
+			allInstrs(fn, func(i2 ssa.Instruction) {
+				if c := callOf(i2); c != nil && emits(c) && i2.Block() != pn.Block() && i2.Block().Dominates(pn.Block()) {
+					after = true
+				}
+				if c := callOf(i2); c != nil && emits(c) && i2.Block() == pn.Block() {
+					for _, x := range i2.Block().Instrs {
+						if x == i2 {
+							after = true
+							break
+						}
+						if x == ssa.Instruction(pn) {
+							break
+						}
+					}
+				}
+			})
+			if after {
+				r.Bad("C03.T11", key, pn.Pos(), "%s panics after it has started to emit the item", fnKey(fn))
+			} else {
+				r.OK("C03.T11", key, pn.Pos(), "the value is rejected before anything is emitted")
+			}
+		})
+	}
+	if n == 0 {
+		r.OK("C03.T11", "ttlv.ttlvWriter/panics", token.NoPos, "no ttlvWriter method panics")
+	}
 }
